@@ -5,7 +5,10 @@
 (* free fields); every judgement is made later by the trace specs.         *)
 EXTENDS ModeSFrame, Json, IOUtils
 
-ShapeSeq == SetToSeq(AllShapes)
+(* every shape with the header fields the harness varies to build context   *)
+(* pairs (ModeSFrame!CtxFields)                                             *)
+ShapeSeq == LET S == SetToSeq(AllShapes)
+            IN [i \in 1..Len(S) |-> S[i] @@ [ctx |-> CtxFields(S[i].df)]]
 
 ASSUME Written == /\ ndJsonSerialize(IOEnv.OUT, ShapeSeq)
                   /\ PrintT(<<"SHAPES", Len(ShapeSeq)>>)
